@@ -46,7 +46,7 @@ TRIPLE = ["a_opt", "a_req", "b_req", "ab_closed", "ref_base", "extra_req", "b_en
 
 
 def cases(tier, seed):
-    names = QUICK if tier == "quick" else list(FRAGS)
+    names = list(FRAGS)
     combos = list(itertools.permutations(names, 2))
     if tier != "quick":
         combos += list(itertools.permutations(TRIPLE, 3))
@@ -127,7 +127,7 @@ def execute(cases_, tier, seed):
     res.evaluations = res.transitions
     res.extra.update({"candidates": n_cand, "multisets": len(groups), "outcomes": outcomes})
     res.samples = [{"id": c["id"], "allOf": c["doc"]["definitions"]["T"]} for c in cases_[:: max(1, len(cases_) // 4)]][:4]
-    res.bound = "tier=%s: all ordered pairs of %d fragments%s" % (tier, len(QUICK if tier == "quick" else FRAGS),
+    res.bound = "tier=%s: all ordered pairs of %d fragments%s" % (tier, len(FRAGS),
                                                                   "" if tier == "quick" else " (as definition and as member) + all ordered triples of %d" % len(TRIPLE))
     res.assumptions = ["fragments hitting merge's documented unimplemented!() (two different numeric/string validations) are not in the menu"]
     if len(cases_) > 20 and (n_cand < 500 or outcomes.get("ok", 0) < 10):
